@@ -348,6 +348,7 @@ func runCase(t ev.T, test string, c Case, confirmed bool) (suspectNoHeartBeat bo
 		hbIssued.Store(0)
 		armed.Store(true)
 	}
+	acquireBegan := time.Now()
 	var herr error
 	switch c.Acquire {
 	case "lock":
@@ -479,6 +480,13 @@ func runCase(t ev.T, test string, c Case, confirmed bool) (suspectNoHeartBeat bo
 		}
 		if v.plain {
 			continue // consequence of somebody else's removal
+		}
+		if c.Reacquire && !v.probe.start.IsZero() && v.probe.start.Before(acquireBegan) {
+			// the decisive probe was served before the acquisition under observation even began: the verdict is about the
+			// previous generation of the lock (which was being released); a removal decided then and landing on the new
+			// generation is the protocol race listed as C01-KF-b, not a question of staleness
+			ev.Class("verdict decided on the previous generation of the lock (not judged here; C01-KF-b)")
+			continue
 		}
 		if v.probe.start.IsZero() {
 			if strings.HasPrefix(v.what, "removed the lock directory") {
